@@ -111,9 +111,9 @@ CONFIGS = [('0', 'fwd'), ('1', 'fwd'), ('2', 'rev'), ('3', 'shuffle'), ('random'
 def plan(tier, seed):
     if tier == 'quick':
         return {'n': 24, 'deadline': 150, 'case_timeout': 200,
-                'floor': {'distinct_nontrivial': 200, 'programs': 600, 'process_runs': 150, 'hashes_compared': 10000}}
+                'floor': {'same_size_same_mtime_rewrites': 1, 'distinct_nontrivial': 200, 'programs': 600, 'process_runs': 150, 'hashes_compared': 10000}}
     return {'n': 640, 'deadline': 560, 'case_timeout': 200,
-            'floor': {'distinct_nontrivial': 4000, 'programs': 12000, 'process_runs': 3000, 'hashes_compared': 200000}}
+            'floor': {'same_size_same_mtime_rewrites': 1, 'distinct_nontrivial': 4000, 'programs': 12000, 'process_runs': 3000, 'hashes_compared': 200000}}
 
 
 def setup(tier, seed):
